@@ -6,6 +6,7 @@ import re
 from mc.core import UnitResult
 
 ID = "C09"
+PARTS = ['ok', 'nest3', 'same-file-independence']      # outcome classes every run must produce (guards against a part of the exploration silently not running)
 RULE = ("state = statement skeleton over: v = <distinct literal>, use(v), if/else, while c()/while True/for with break/continue/else, try/except[/else]/finally, "
         "with (suppressing and non-suppressing context manager), return, raise — every skeleton up to the node bound; reported(use) = literals in the value the real visitor "
         "infers for v at the use (+unbound if an undefined_name/possibly_undefined_name diagnostic is emitted there); oracles: strict = exhaustive concrete execution under "
